@@ -44,11 +44,13 @@ def main():
             err = apply(m)
             if err:
                 res[m] = 'ERROR(apply: %s)' % err.strip()[:200]
+                print('%-60s %s' % (os.path.relpath(m, V), res[m]), flush=True)
                 continue
             b = subprocess.run(['go', 'build', './...'], cwd=REPO, env=dict(os.environ, GOFLAGS='-mod=mod', GOPROXY='off', GOSUMDB='off'),
                                stdout=subprocess.PIPE, stderr=subprocess.STDOUT, text=True)
             if b.returncode:
                 res[m] = 'ERROR(does not compile)'
+                print('%-60s %s' % (os.path.relpath(m, V), res[m]), flush=True)
                 continue
             p = subprocess.run([os.path.join(V, 'check'), prop, '--tier', tier, '--replay-none'] if False else [os.path.join(V, 'check'), prop, '--tier', tier],
                                cwd=V, stdout=subprocess.PIPE, stderr=subprocess.STDOUT, text=True,
